@@ -221,6 +221,7 @@ class CallListerVisitor(ast.NodeVisitor):
         self.namespace = Namespace()
         self.calls = []
         self.to_revisit = []
+        self.stored_attrs = set()
         self.varargs = None
         self.varkwargs = None
 
@@ -370,7 +371,23 @@ class CallListerVisitor(ast.NodeVisitor):
         self.namespace[node.id] = Unknown(node)
 
     def visit_Attribute(self, node):
-        pass
+        if not isinstance(node.ctx, ast.Load):
+            # self.helper = ...: what the attribute holds while the
+            # signature is being retrieved is not what will be called
+            self.stored_attrs.add(self.attribute_path(node))
+
+    @staticmethod
+    def attribute_path(node):
+        path = []
+        while isinstance(node, ast.Attribute):
+            path.append(node.attr)
+            node = node.value
+        path.append(node.id if isinstance(node, ast.Name) else None)
+        return tuple(reversed(path))
+
+    def is_stored_attribute(self, node):
+        path = self.attribute_path(node)
+        return any(path[:n] in self.stored_attrs for n in range(2, len(path) + 1))
 
     def has_hide_starargs(self, found, original):
         if found:
@@ -382,6 +399,10 @@ class CallListerVisitor(ast.NodeVisitor):
 
     def process_Call(self, node):
         wrapped = self.resolve_name(node.func, ro=True, tainted=True)
+        if (
+                isinstance(node.func, ast.Attribute)
+                and self.is_stored_attribute(node.func)):
+            wrapped = Unknown(node.func)
         if isinstance(wrapped, Attribute):
             instance = wrapped
             while isinstance(instance, Attribute):
